@@ -108,19 +108,31 @@ def wf_lazy_any(c, L):
 
 
 def inv_region(c):
-    """Region invariant over the internals of *all* lazy trees: each is unbuilt or denotes exactly the
-    current intervals of its collection (WF_lazy); built index trees are alive and not shared."""
+    return z3.And(*inv_region_parts(c).values())
+
+
+def mk_any(c, L, n):
+    """the interval the lazy tree L builds for element n (block trees: by offset; section trees: by address)"""
+    return z3.If(lit_elem_is_block(c, L), lazy.mk_spec(c, "ByteBlock", n), lazy.mk_spec(c, "ByteInterval", n))
+
+
+def inv_region_parts(c):
+    """Region invariant over the internals of *all* lazy trees (flat, universally quantified):
+    denote   - a built index, with the pending events replayed over it, holds exactly the intervals of the
+               current members of its collection (WF_lazy);
+    alive    - built index trees are allocated objects;
+    unshared - no two lazy trees share an index tree."""
     L = fresh("L", Int)
     L2 = fresh("L2", Int)
     idx = c.get("LIT._interval_index", L)
     idx2 = c.get("LIT._interval_index", L2)
-    return z3.And(
-        z3.ForAll([L], z3.Implies(kind_is(c, L, "LazyIntervalTree"), z3.And(
-            wf_lazy_any(c, L),
-            z3.Implies(is_VRef(idx), z3.Select(c.arr("$alive"), ref(idx)))))),
-        z3.ForAll([L, L2], z3.Implies(z3.And(kind_is(c, L, "LazyIntervalTree"), kind_is(c, L2, "LazyIntervalTree"),
-                                              L != L2, is_VRef(idx), is_VRef(idx2)), idx != idx2)),
-    )
+    is_lit = kind_is(c, L, "LazyIntervalTree")
+    return {
+        "region_denote": z3.ForAll([L], z3.Implies(is_lit, wf_lazy_any(c, L))),
+        "region_alive": z3.ForAll([L], z3.Implies(z3.And(is_lit, is_VRef(idx)), z3.Select(c.arr("$alive"), ref(idx)))),
+        "region_unshared": z3.ForAll([L, L2], z3.Implies(
+            z3.And(is_lit, kind_is(c, L2, "LazyIntervalTree"), L != L2, is_VRef(idx), is_VRef(idx2)), idx != idx2)),
+    }
 
 
 def wf_static(c):
